@@ -69,9 +69,9 @@ mod vharness {
         let n = chars.len();
         // small integer bounds (a symbolic f64 bound makes Chars::advance_by's chunk loops unwind without end: measured);
         // get_slice_range itself is proved for every f64 in slice_range_contract
-        let small = || -> Option<f64> { if kani::any() { let v: i8 = kani::any(); kani::assume(v >= -8 && v <= 8); Some(v as f64) } else { None } };
+        let small = || -> Option<f64> { if kani::any() { let v: i8 = kani::any(); kani::assume(v >= -6 && v <= 6); Some(v as f64) } else { None } };
         let (start, end) = (small(), small());
-        let step: Option<f64> = if kani::any() { let v: u8 = kani::any(); kani::assume(v <= 4); Some(v as f64) } else { None };
+        let step: Option<f64> = if kani::any() { let v: u8 = kani::any(); kani::assume(v <= 3); Some(v as f64) } else { None };
         let valid = step.map_or(true, |k| k >= 1.0);
         let mut ev = Evaluator { value_stack: Vec::with_capacity(1), _p: PhantomData };
         let r = ev.do_slice_string(text, start, end, step, None);
@@ -87,13 +87,13 @@ mod vharness {
             _ => assert!(false, "C18:slice:string-slice-yields-a-string"),
         }
     }
-    //@harness props=C18,C01 strength=bounded bound="the string 'h\u00e9llo' (5 code points, 6 bytes), start / end null or any integer in -8..8, step null or 0..4" clause="s[a:b:c] on a string counts code points for every bound, negative ones included: the result is Python's slice of the code-point sequence" timeout=900 replay=slice_string
+    //@harness props=C18,C01 strength=bounded bound="the string 'h\u00e9llo' (5 code points, 6 bytes), start / end null or any integer in -6..6, step null or 0..3" clause="s[a:b:c] on a string counts code points for every bound, negative ones included: the result is Python's slice of the code-point sequence" timeout=900 replay=slice_string
     #[kani::proof]
-    #[kani::unwind(20)]
+    #[kani::unwind(10)]
     fn slice_string_hello() { slice_string("h\u{e9}llo", &['h', '\u{e9}', 'l', 'l', 'o']); }
-    //@harness props=C18,C01 strength=bounded tier=thorough bound="the string 'a\U0001F60Eb\u20ac' (4 code points, 9 bytes), start / end null or any integer in -8..8, step null or 0..4" clause="s[a:b:c] on a string counts code points for every bound, negative ones included: the result is Python's slice of the code-point sequence" timeout=900 replay=slice_string
+    //@harness props=C18,C01 strength=bounded tier=thorough bound="the string 'a\U0001F60Eb\u20ac' (4 code points, 9 bytes), start / end null or any integer in -6..6, step null or 0..3" clause="s[a:b:c] on a string counts code points for every bound, negative ones included: the result is Python's slice of the code-point sequence" timeout=900 replay=slice_string
     #[kani::proof]
-    #[kani::unwind(20)]
+    #[kani::unwind(12)]
     fn slice_string_astral() { slice_string("a\u{1F60E}b\u{20ac}", &['a', '\u{1F60E}', 'b', '\u{20ac}']); }
 
     // DISABLED: did not finish in 900 s on a loaded machine (skip/take with symbolic counts); kept for a quiet re-measurement
